@@ -2,6 +2,9 @@ package main
 
 import (
 	"encoding/json"
+	"strings"
+
+	"verif/ref"
 )
 
 func js(v interface{}) string {
@@ -141,5 +144,49 @@ func init() {
 			}
 			return jobs
 		},
+	})
+	gcJobs := func(prop string, tier string, seed uint64) []Job {
+		var jobs []Job
+		hist, ops := 10, 70
+		n := 14
+		if tier == "thorough" {
+			hist, ops, n = 30, 110, 56
+		}
+		r := ref.NewRand(seed ^ 0x6c)
+		for i := 0; i < n; i++ {
+			c := StoreCfg{NumBucket: r.Pick(1, 1, 16, 256), TreeHeight: r.Range(2, 4), CheckVHash: r.Intn(3) == 0,
+				SplitCap: int64(r.Pick(2, 5, 64, 1<<20)), IndexInterval: int64(r.Pick(64, 512, 4096)), BodyInC: int64(r.Pick(0, 4096))}
+			// a record never exceeds half a data file ("limits from a few records"):
+			// value <= limit/2 - header - longest key
+			switch i % 3 {
+			case 0: // small files, destination can never be an earlier file (file limit - body_max < 0)
+				c.DataFileMax, c.BodyMax = int64(r.Pick(6, 8, 10))*256, 1<<20
+			case 1: // earlier non-full files are eligible destinations
+				c.DataFileMax, c.BodyMax = int64(r.Pick(12, 20, 40))*256, 1024
+			default:
+				c.DataFileMax, c.BodyMax = int64(r.Pick(8, 16))*256, 1024
+			}
+			maxVal := int(c.DataFileMax/2) - 24 - 250
+			if int64(maxVal) > c.BodyMax {
+				maxVal = int(c.BodyMax)
+			}
+			cs := limitServed([]StoreCfg{c}, 1, seed+uint64(i))
+			jobs = append(jobs, Job{Variant: "plain", Mode: "db.gc", Args: js(map[string]interface{}{"Cfg": cs[0], "Histories": hist, "NOps": ops, "NKeys": r.Range(4, 10), "MaxVal": maxVal, "BigPct": 0, "MaintPct": 22, "Restart": true, "GC": true, "GCMonitor": true, "Prop": prop})})
+		}
+		return jobs
+	}
+	register(&PropSpec{
+		ID: "C03", Level: "exploration",
+		Rule:        "C01/C02 histories over 4..10 keys spread across many tiny data files with GC passes over every kind of legal range (selected at run time from the ranges the store's own range check accepts), merge on/off, through HStore.GC (waiting for the gc.exit hook) and through the GC manager directly, followed by further writes, further passes and restarts with index subsets removed; after every pass all keys are read back against the reference map and the reference decoder confirms each live key's record is where the tree points. distinct = (files in range x destination kind {earlier file, in place, fresh} x merge x released x tombstone retained x begin=0) pass signatures plus the read signatures of C01",
+		Assumptions: []string{"background goroutines of the store are quiescent before each pass (hook counters); GC beside live traffic is C05", "SecsBeforeDump (a test knob of the store) is -1 so the merge path does not sleep"},
+		Keep:        func(sig string) bool { return !strings.HasPrefix(sig, "c18:") },
+		Plan:        func(tier string, seed uint64) []Job { return gcJobs("c03", tier, seed) },
+	})
+	register(&PropSpec{
+		ID: "C18", Level: "exploration",
+		Rule:        "after every GC pass of the C03 histories (no concurrent writes, non-colliding keys) an independent record scanner reads every surviving file of the collected range and the appended part of an earlier destination: a live-value record must be the key's last accepted write and appear once; a tombstone must be the key's last delete or one retained by the reservation rule (no tree entry before the pass and pass not starting at file 0, observed with a mem-only lookup before the pass); the earlier destination's old prefix and every file outside the range are byte-identical (sha1 before/after); an identical second pass releases nothing and changes no file. distinct = pass signatures as in C03",
+		Assumptions: []string{"server-compressed records are expanded with the Go QuickLZ implementation (the store uses the C one) to identify which write a surviving record is"},
+		Keep:        func(sig string) bool { return strings.HasPrefix(sig, "c18:") || strings.HasPrefix(sig, "child-died") },
+		Plan:        func(tier string, seed uint64) []Job { return gcJobs("c18", tier, seed) },
 	})
 }
